@@ -28,6 +28,8 @@ STRENGTHENED = {
     'C17-4': 'SIZE replies that state the true length, combined with 4xx closing replies',
     'C18-3': 'robots.txt handling on in a third of the crawls, 5xx robots.txt also on the start origin',
     'C20-5': 'robots.txt redirected to files named robots.txt below the root of another crawled origin',
+    'C16-6': 'the fake proxy pool got credentials of its own (add_auth_header) and a host filter (some hops reached directly); predicate "Proxy-Authorization only on proxied connections"',
+    'C07-5': 'folded continuation lines that hold white space only, inside the header block',
 }
 
 
